@@ -2,7 +2,7 @@
    from-scratch specification on every input that avoids the two known departures; the
    field-by-field reading of the specification. *)
 From Coq Require Import List ZArith Bool Lia.
-From Verif Require Import C20.Model C20.Spec C20.Proofs_Overlay C20.Proofs_History C20.Proofs_Select.
+From Verif Require Import C20.Model C20.Spec C20.Proofs_Overlay C20.Proofs_History C20.Proofs_Strict C20.Proofs_Select.
 Import ListNotations.
 Open Scope Z_scope.
 
@@ -14,20 +14,52 @@ Proof.
   - inversion H; subst. rewrite Z.eqb_refl. simpl. apply IH. reflexivity.
 Qed.
 
-Lemma check_segs_spec : forall segs obs,
-  Forall (fun s => fst s <> 0) segs ->
-  (check_segs segs obs = 0 <-> obs = flat_map snd segs).
+Lemma is_prefix_spec e obs : is_prefix e obs = true <-> obs = e ++ skipn (length e) obs.
 Proof.
-  induction segs as [|[cl e] segs IH]; intros obs Hnz; simpl.
-  - destruct obs; simpl; split; intros H; try reflexivity; discriminate.
+  unfold is_prefix. rewrite eq_listZ_spec. split; intros H.
+  - rewrite <- H at 1. symmetry. apply firstn_skipn.
+  - rewrite H at 1. rewrite firstn_app, firstn_all, Nat.sub_diag. simpl. apply app_nil_r.
+Qed.
+
+Lemma check_segs_spec : forall segs obs,
+  Forall (fun s : seg => fst s <> 0) segs ->
+  (check_segs segs obs = 0 <-> obs_matches segs obs).
+Proof.
+  induction segs as [|[cl alts] segs IH]; intros obs Hnz.
+  - simpl. unfold obs_matches. destruct obs; simpl; split; intros H; try reflexivity.
+    + exists []. split; [constructor|reflexivity].
+    + discriminate.
+    + destruct H as (ch & HF & E). inversion HF; subst. discriminate.
   - inversion Hnz as [|? ? Hcl Hnz']; subst. simpl in Hcl.
-    destruct (eq_listZ (firstn (length e) obs) e) eqn:E.
-    + apply eq_listZ_spec in E. rewrite (IH _ Hnz'). split; intros H.
-      * rewrite <- (firstn_skipn (length e) obs), E, H. reflexivity.
-      * rewrite H. rewrite skipn_app, skipn_all, Nat.sub_diag. reflexivity.
-    + split; intros H; [contradiction|]. exfalso.
-      rewrite H, firstn_app, firstn_all, Nat.sub_diag in E. simpl in E. rewrite app_nil_r in E.
-      assert (eq_listZ e e = true) by (apply eq_listZ_spec; reflexivity). congruence.
+    cbn [check_segs].
+    set (rs := map (fun e => if is_prefix e obs then check_segs segs (skipn (length e) obs) else cl) alts).
+    assert (existsb (Z.eqb 0) rs = true <->
+            exists e, In e alts /\ is_prefix e obs = true /\ check_segs segs (skipn (length e) obs) = 0) as Hex.
+    { unfold rs. rewrite existsb_exists. split.
+      - intros (r & Hr & E). apply Z.eqb_eq in E. subst r. apply in_map_iff in Hr.
+        destruct Hr as (e & He & Hin). exists e. split; [assumption|].
+        destruct (is_prefix e obs); [split; [reflexivity|assumption]|congruence].
+      - intros (e & Hin & Hp & Hc). exists 0. split; [|reflexivity].
+        apply in_map_iff. exists e. rewrite Hp. split; assumption. }
+    split.
+    + intros H.
+      assert (existsb (Z.eqb 0) rs = true) as Hx.
+      { destruct (existsb (Z.eqb 0) rs) eqn:Ex; [reflexivity|]. exfalso.
+        destruct rs as [|r rs']; simpl in H; [congruence|].
+        subst r. simpl in Ex. discriminate. }
+      apply Hex in Hx. destruct Hx as (e & Hin & Hp & Hc).
+      apply (IH _ Hnz') in Hc. destruct Hc as (ch & HF & E).
+      exists (e :: ch). split; [constructor; assumption|].
+      simpl. rewrite <- E. apply is_prefix_spec. assumption.
+    + intros (ch & HF & E). inversion HF as [|e ? ch' ? Hin HF']; subst. simpl in Hin.
+      assert (existsb (Z.eqb 0) rs = true) as Hx.
+      { apply Hex. exists e. split; [assumption|].
+        assert (skipn (length e) (concat (e :: ch')) = concat ch') as Hs
+          by (simpl; rewrite skipn_app, skipn_all, Nat.sub_diag; reflexivity).
+        split.
+        - apply is_prefix_spec. rewrite Hs. reflexivity.
+        - rewrite Hs. apply (IH _ Hnz'). exists ch'. split; [assumption|reflexivity]. }
+      rewrite Hx. reflexivity.
 Qed.
 
 Lemma flat_map_flat_map {A B C} (f : A -> list B) (g : B -> list C) : forall l,
@@ -40,27 +72,62 @@ Lemma flat_map_map {A B C} (f : A -> B) (g : B -> list C) : forall l,
   flat_map g (map f l) = flat_map (fun x => g (f x)) l.
 Proof. induction l as [|x l IH]; simpl; [reflexivity|]. rewrite IH. reflexivity. Qed.
 
-Lemma spec_segs_flat m i : flat_map snd (spec_segs m i) = enc_obs (spec_run m i).
+(* concatenation of matchings *)
+Lemma obs_matches_app s1 s2 o1 o2 :
+  obs_matches s1 o1 -> obs_matches s2 o2 -> obs_matches (s1 ++ s2) (o1 ++ o2).
 Proof.
-  unfold spec_segs, enc_obs, spec_run. rewrite flat_map_flat_map, flat_map_map.
-  apply flat_map_ext. intros k. unfold spec_segs_at, spec_observe.
-  rewrite !flat_map_flat_map. apply flat_map_ext. intros ls.
-  rewrite !flat_map_map. reflexivity.
+  intros (c1 & H1 & E1) (c2 & H2 & E2). exists (c1 ++ c2). split.
+  - apply Forall2_app; assumption.
+  - rewrite concat_app. congruence.
 Qed.
 
-Lemma spec_segs_nonzero m i : Forall (fun s => fst s <> 0) (spec_segs m i).
+Lemma obs_matches_flat_map {A} (f : A -> list seg) (g : A -> list Z) : forall l,
+  (forall x, In x l -> obs_matches (f x) (g x)) ->
+  obs_matches (flat_map f l) (flat_map g l).
+Proof.
+  induction l as [|x l IH]; intros H; simpl.
+  - exists []. split; [constructor|reflexivity].
+  - apply obs_matches_app; [apply H; left; reflexivity|apply IH; intros y Hy; apply H; right; assumption].
+Qed.
+
+(* the deterministic reading of the specification (first accepted value of every segment) is accepted *)
+Lemma spec_segs_node_matches m sds syncs nd :
+  obs_matches (spec_segs_node m sds syncs nd) (enc_slo (spec_node m sds syncs nd)).
+Proof.
+  destruct nd as [n|]; simpl.
+  - rewrite flat_map_map.
+    induction (combine (seq 0 (length sds)) sds) as [|isd l IH]; simpl.
+    + exists []. split; [constructor|reflexivity].
+    + apply (obs_matches_app [_] _ (enc _)); [|exact IH].
+      eexists [_]. split; [constructor; [|constructor]|simpl; rewrite app_nil_r; reflexivity].
+      simpl. left. reflexivity.
+  - exists [no_slo]. split; [|reflexivity]. constructor; [|constructor]. left. reflexivity.
+Qed.
+
+Lemma spec_segs_matches m i : obs_matches (spec_segs m i) (enc_obs (spec_run m i)).
+Proof.
+  unfold spec_segs, enc_obs, spec_run. rewrite flat_map_map.
+  apply obs_matches_flat_map. intros k _.
+  unfold spec_segs_at, spec_observe. rewrite flat_map_map.
+  apply obs_matches_flat_map. intros nd _. apply spec_segs_node_matches.
+Qed.
+
+Lemma spec_segs_nonzero m i : Forall (fun s : seg => fst s <> 0) (spec_segs m i).
 Proof.
   apply Forall_forall. intros [cl e] Hin. unfold spec_segs in Hin.
   apply in_flat_map in Hin. destruct Hin as (k & _ & Hin). unfold spec_segs_at in Hin.
-  apply in_flat_map in Hin. destruct Hin as (ls & _ & Hin).
-  apply in_map_iff in Hin. destruct Hin as ([j sd] & Heq & _). inversion Heq; subst. simpl.
-  unfold clause_of. destruct (sec_in j _); discriminate.
+  apply in_flat_map in Hin. destruct Hin as ([n|] & _ & Hin); simpl in Hin.
+  - apply in_map_iff in Hin. destruct Hin as ([j sd] & Heq & _). inversion Heq; subst. simpl.
+    destruct (bw_unreadable sd n); [discriminate|].
+    unfold clause_of. destruct (sec_in j _); discriminate.
+  - destruct Hin as [Heq|[]]. inversion Heq. simpl. discriminate.
 Qed.
 
 Theorem prop_code_spec i obs : prop_code i obs = 0 <-> C20_holds i obs.
 Proof.
-  unfold prop_code, C20_holds. rewrite check_segs_spec by apply spec_segs_nonzero.
-  rewrite spec_segs_flat. reflexivity.
+  unfold prop_code, C20_holds. destruct (in_scope i).
+  - rewrite (check_segs_spec _ obs (spec_segs_nonzero ideal i)). split; auto.
+  - split; [discriminate|reflexivity].
 Qed.
 
 (* ---------- when the two departures cannot show, the code as it is = the property read literally ---------- *)
@@ -117,6 +184,7 @@ Proof.
   intros Hsd Hwf Hcl. destruct x as [| |c es]; try reflexivity.
   simpl. destruct (sd_merge sd) eqn:Em; [|reflexivity].
   unfold wf_secdef in Hsd. rewrite Em in Hsd. simpl in Hsd.
+  apply andb_true_iff in Hsd. destruct Hsd as [Hsd _].
   apply andb_true_iff in Hsd. destruct Hsd as [Hcd Hsd].
   apply andb_true_iff in Hsd. destruct Hsd as [Hpd Hso].
   destruct s as [|ss| |]; try discriminate.
@@ -149,7 +217,7 @@ Definition op_cmap (o : op) : option cmap :=
   end.
 
 Lemma inf_after_cases inf o : inf_after inf o = inf \/ inf_after inf o = None \/ inf_after inf o = op_cmap o.
-Proof. destruct o as [c|c| | |[c|]]; simpl; auto. Qed.
+Proof. destruct o as [c|c| | |[c|]| | | | |]; simpl; auto. Qed.
 
 Lemma eff_syncs_In : forall ops a inf oc,
   In oc (eff_syncs a inf ops) ->
@@ -157,9 +225,10 @@ Lemma eff_syncs_In : forall ops a inf oc,
 Proof.
   induction ops as [|o ops IH]; intros a inf oc H; [contradiction|].
   cbn [eff_syncs] in H. apply in_app_or in H. destruct H as [H|H].
-  - assert (oc = inf_after inf o) as ->.
-    { destruct o as [c|c| | |oc']; destruct a; simpl in H;
-        solve [contradiction | destruct H as [H|H]; [auto|contradiction]]. }
+  - assert (oc = None \/ oc = inf_after inf o) as [->| ->]; [|auto|].
+    { destruct o as [c|c| | |oc'| | | | |]; destruct a; simpl in H;
+        solve [contradiction | destruct H as [H|H]; [auto|contradiction]
+              | destruct H as [H|[H|H]]; [auto|auto|contradiction]]. }
     destruct (inf_after_cases inf o) as [E|[E|E]]; rewrite E; auto.
     right. right. exists o. split; [left; reflexivity|reflexivity].
   - destruct (IH _ _ _ H) as [->|[->|(o' & Ho' & ->)]]; auto.
@@ -201,21 +270,23 @@ Lemma spec_observe_clean ss sds nodes ops :
   spec_observe faithful sds nodes ops = spec_observe ideal sds nodes ops.
 Proof.
   intros Hsds Hwf Hcl. unfold spec_observe.
-  apply flat_map_ext. intros ls. apply map_ext_in. intros [i sd] Hin. simpl.
+  apply map_ext. intros [nd|]; [|reflexivity]. simpl. f_equal.
+  apply map_ext_in. intros [i sd] Hin. simpl.
   apply in_combine_seq in Hin. destruct Hin as (j & -> & Hj). simpl.
   pose proof (forall2b_length _ _ _ Hsds) as Hlen.
   destruct (nth_error_same_length sds ss _ _ (eq_sym Hlen) Hj) as [s Hs].
   pose proof (forall2b_nth _ _ _ _ _ _ Hsds Hs Hj) as Hsd.
+  unfold spec_effective_n. f_equal.
   apply (spec_effective_clean s); [assumption| |].
   - destruct (last_good_cases j (eff_syncs false None ops)) as [->|(oc & Hin & ->)]; [reflexivity|].
     destruct (eff_syncs_In _ _ _ _ Hin) as [->|[->|(o & Ho & ->)]]; try reflexivity.
     rewrite forallb_forall in Hwf. specialize (Hwf _ Ho).
-    destruct o as [c|c| | |[c|]]; try reflexivity; simpl in *;
+    destruct o as [c|c| | |[c|]| |i0 nd0|i0|i0|i0]; try reflexivity; simpl in *;
       exact (forallb_combine_seq _ ss 0 Hwf j s Hs).
   - destruct (last_good_cases j (eff_syncs false None ops)) as [->|(oc & Hin & ->)]; [reflexivity|].
     destruct (eff_syncs_In _ _ _ _ Hin) as [->|[->|(o & Ho & ->)]]; try reflexivity.
     rewrite forallb_forall in Hcl. specialize (Hcl _ Ho).
-    destruct o as [c|c| | |[c|]]; try reflexivity; simpl in *;
+    destruct o as [c|c| | |[c|]| |i0 nd0|i0|i0|i0]; try reflexivity; simpl in *;
       exact (forallb_combine_seq _ sds 0 Hcl j sd Hj).
 Qed.
 
@@ -227,28 +298,32 @@ Proof.
   apply (spec_observe_clean ss); auto using forallb_firstn.
 Qed.
 
-(* MAIN: on every well-formed history of ConfigMap events that avoids the two departures, what the
+(* MAIN: on every well-formed history of events that avoids the two departures, what the
    model of the code delivers to every node after every event satisfies the property. *)
 Theorem model_meets_spec ss i :
   wf_input ss i = true -> clean_input i = true ->
   prop_code i (enc_obs (run faithful i)) = 0.
 Proof.
-  intros Hwf Hcl. apply prop_code_spec. unfold C20_holds.
-  rewrite run_refines_spec, (spec_run_clean ss) by assumption. reflexivity.
+  intros Hwf Hcl. apply prop_code_spec. unfold C20_holds. intros Hs.
+  rewrite run_refines_spec, (spec_run_clean ss) by assumption. apply spec_segs_matches.
 Qed.
 
 (* the same model with the two departures switched off (= the code after the proposed patches,
    findings/C20-*.md) satisfies the property on EVERY history, no side condition *)
 Theorem ideal_model_meets_spec i : prop_code i (enc_obs (run ideal i)) = 0.
-Proof. apply prop_code_spec. unfold C20_holds. rewrite run_refines_spec. reflexivity. Qed.
+Proof.
+  apply prop_code_spec. unfold C20_holds. intros Hs. rewrite run_refines_spec by assumption.
+  apply spec_segs_matches.
+Qed.
 
 (* and in every case (clean or not) the model is one of the four semantics [finding_code] knows *)
 Theorem model_explained i :
   prop_code i (enc_obs (run faithful i)) = 0 \/ finding_code i (enc_obs (run faithful i)) <> 0.
 Proof.
-  rewrite run_refines_spec. unfold finding_code.
-  destruct (eq_listZ (enc_obs (spec_run faithful i)) (enc_obs (spec_run ideal i))) eqn:E0.
-  - left. apply prop_code_spec. apply eq_listZ_spec in E0. exact E0.
+  destruct (in_scope i) eqn:Hs; [|left; unfold prop_code; rewrite Hs; reflexivity].
+  rewrite run_refines_spec by assumption. unfold finding_code.
+  destruct (prop_code i (enc_obs (spec_run faithful i)) =? 0) eqn:E0.
+  - left. apply Z.eqb_eq. exact E0.
   - right.
     replace (eq_listZ (enc_obs (spec_run faithful i)) (enc_obs (spec_run faithful i))) with true
       by (symmetry; apply eq_listZ_spec; reflexivity).
@@ -257,14 +332,19 @@ Proof.
     destruct (eq_listZ _ (enc_obs (spec_run (mkMode false true) i))); discriminate.
 Qed.
 
-(* a non-zero signature is only ever given to an observable that is the faithful model's own *)
+(* a non-zero signature is only ever given to an observable that is the faithful model's own
+   and that violates the property *)
 Theorem finding_code_requires_model i obs :
-  finding_code i obs <> 0 -> obs = enc_obs (run faithful i).
+  finding_code i obs <> 0 -> obs = enc_obs (run faithful i) /\ prop_code i obs <> 0.
 Proof.
-  rewrite run_refines_spec. unfold finding_code.
-  destruct (eq_listZ obs (enc_obs (spec_run ideal i))); [congruence|].
+  unfold finding_code.
+  destruct (prop_code i obs =? 0) eqn:E0; [congruence|].
+  apply Z.eqb_neq in E0.
+  assert (in_scope i = true) as Hs
+    by (destruct (in_scope i) eqn:E; [reflexivity|unfold prop_code in E0; rewrite E in E0; congruence]).
+  rewrite run_refines_spec by assumption.
   destruct (eq_listZ obs (enc_obs (spec_run faithful i))) eqn:E; [|simpl; congruence].
-  intros _. apply eq_listZ_spec. exact E.
+  intros _. split; [apply eq_listZ_spec; exact E|exact E0].
 Qed.
 
 (* ---------- the specification, field by field ---------- *)
